@@ -282,12 +282,19 @@ def rule_constants(model: Model, unit: CppUnit):
         return [Ob("CPP-CONST", "cpp:CPP-CONST:amen_solve", ERROR, "cpp/amen_solve.h", "amen_solve", str(e))]
     # python: the local tolerance of the local solves is recognised by its normal form (eps^1 * order^-1/2 * constant), whatever it is called
     from .. import allowance as al
-    nz = al.Normaliser(model, f, ("eps",))
+    epsname = "eps"
+    pub = model.func("solvers.amen_solve")
+    for c in ast.walk(pub.node):
+        if isinstance(c, ast.Call) and norm(c.func).endswith("_amen_solve_python"):
+            for i, a in enumerate(c.args):
+                if isinstance(a, ast.Name) and a.id == "eps" and i < len(f.params()):
+                    epsname = f.params()[i]
+    nz = al.Normaliser(model, f, (epsname,))
     py_forms = []
     for n in ast.walk(f.node):
         if isinstance(n, ast.Assign) and len(n.targets) == 1 and isinstance(n.targets[0], ast.Name):
             ms = nz.monos(n.value, nz.env_at(n))
-            if ms and len(ms) == 1 and ms[0].exps.get("EPS:eps") == 1 and any(k_.startswith("len(") and v == Fraction(-1, 2) for k_, v in ms[0].exps.items()) \
+            if ms and len(ms) == 1 and ms[0].exps.get("EPS:" + epsname) == 1 and any(k_.startswith("len(") and v == Fraction(-1, 2) for k_, v in ms[0].exps.items()) \
                     and len(ms[0].exps) == 2:
                 py_forms.append((n, ms[0]))
     cpp_defs = {m.group(1): m.group(2).strip() for m in re.finditer(r"\b(?:double|auto|float|int|uint64_t)\s+(\w+)\s*=\s*([^;]+);", cf.body)}
